@@ -34,6 +34,10 @@ func VerifC13(f []string) string {
 		return verifC13Chain(f[1:])
 	case "tb":
 		return verifC13Table(f[1:])
+	case "sp":
+		return verifC13SearchPBM(f[1:])
+	case "pb":
+		return verifC13PartIter(f[1:])
 	}
 	return "bad-op"
 }
@@ -402,4 +406,95 @@ func c13SortedKeys[V any](m map[string]V) []string {
 	}
 	sort.Strings(keys)
 	return keys
+}
+
+// ---------------------------------------------------------------------------------------
+// reading a part by trace id: searchPBM as a pure function, and partIter over a real part whose
+// primary (index) blocks are cut where the case says (the same flush mustWriteBlock performs when
+// the 128 KiB primary-block buffer overflows), so that a trace can straddle primary blocks without
+// multi-megabyte payloads.
+
+func c13Tid(n int64) string { return fmt.Sprintf("t%06d", n) }
+
+// sp <tid> <firstId,firstId,...>  ->  index at which reading starts | PANIC
+func verifC13SearchPBM(f []string) (res string) {
+	defer func() {
+		if r := recover(); r != nil {
+			res = "PANIC"
+		}
+	}()
+	var idx []primaryBlockMetadata
+	for _, s := range c13Split(f[1], ",") {
+		idx = append(idx, primaryBlockMetadata{traceID: c13Tid(c13Int(s))})
+	}
+	out := searchPBM(idx, c13Tid(c13Int(f[0])))
+	return strconv.Itoa(len(idx) - len(out))
+}
+
+// pb <wanted tid,...> <tid:count,tid:count|tid:count,...>  ->  blocks yielded by partIter
+func verifC13PartIter(f []string) (res string) {
+	defer func() {
+		if r := recover(); r != nil {
+			res = "PANIC"
+		}
+	}()
+	mp := generateMemPart()
+	defer releaseMemPart(mp)
+	bw := generateBlockWriter()
+	pblocks := c13Split(f[1], "|")
+	nblocks := 0
+	for _, pb := range pblocks {
+		nblocks += len(c13Split(pb, ","))
+	}
+	bw.MustInitForMemPart(mp, nblocks)
+	sid := 0
+	for pi, pb := range pblocks {
+		for _, b := range c13Split(pb, ",") {
+			q := strings.Split(b, ":")
+			tid, count := c13Tid(c13Int(q[0])), int(c13Int(q[1]))
+			spans := make([][]byte, count)
+			tags := make([][]*tagValue, count)
+			tss := make([]int64, count)
+			sids := make([]string, count)
+			for i := range spans {
+				sid++
+				spans[i] = []byte(fmt.Sprintf("%s-%d", tid, sid))
+				tags[i] = []*tagValue{}
+				tss[i] = int64(1000 + sid)
+				sids[i] = fmt.Sprintf("s%d", sid)
+			}
+			bw.MustWriteTrace(tid, spans, tags, tss, sids)
+		}
+		if pi != len(pblocks)-1 {
+			// close the primary block here (what mustWriteBlock does on overflow)
+			bw.mustFlushPrimaryBlock(bw.primaryBlockData)
+			bw.primaryBlockData = bw.primaryBlockData[:0]
+		}
+	}
+	bw.Flush(&mp.partMetadata, &mp.traceIDFilter, &mp.tagType)
+	releaseBlockWriter(bw)
+	p := openMemPart(mp)
+	if len(p.primaryBlockMetadata) != len(pblocks) {
+		return fmt.Sprintf("ERR primary blocks %d != %d", len(p.primaryBlockMetadata), len(pblocks))
+	}
+	var wanted []string
+	for _, s := range c13Split(f[0], ",") {
+		wanted = append(wanted, c13Tid(c13Int(s)))
+	}
+	bma := generateBlockMetadataArray()
+	defer releaseBlockMetadataArray(bma)
+	it := &partIter{}
+	it.init(bma, p, wanted)
+	var out []string
+	for it.nextBlock() {
+		n, _ := strconv.Atoi(strings.TrimLeft(it.curBlock.traceID[1:], "0"))
+		out = append(out, fmt.Sprintf("%d:%d", n, it.curBlock.count))
+	}
+	if err := it.error(); err != nil {
+		return "ERR " + strings.ReplaceAll(err.Error(), " ", "_")
+	}
+	if len(out) == 0 {
+		return "-"
+	}
+	return strings.Join(out, ",")
 }
